@@ -27,6 +27,7 @@ import (
 	"sync"
 	"time"
 
+	"verif/harness/gen"
 	"verif/harness/ops"
 	"verif/harness/spec"
 )
@@ -295,6 +296,7 @@ func check(p *propDef, tier string) int {
 		die2("tier must be quick or thorough")
 	}
 	seed := seedEnv()
+	gen.Tier = tier
 	fmt.Printf("vsim: property=%s tier=%s VERIF_SEED=%d\n", p.id, tier, seed)
 	build(true)
 	defer cleanup()
